@@ -364,6 +364,7 @@ EvGuards(e) ==
       [] e.k = "cancel" -> {}
       [] e.k = "hang" -> { G("C07", FALSE) }
       [] e.k = "panic" -> { G("C17", FALSE) }
+      [] e.k = "abort" -> { G("C17", FALSE) }      \* the server process died
       [] e.k = "end" ->
             { G("C07", pend = Empty),
               \* everything a live subscription was ever posted has been delivered and acknowledged
